@@ -976,7 +976,7 @@ impl<'a> G<'a> {
 // ---------------------------------------------------------------------------------------------
 // printing with a naming
 
-const POOL: [&str; 14] = ["x", "y", "z", "x0", "a0", "n", "l", "xs", "k", "share_f_0", "a", "b", "x1", "acc"];
+const POOL: [&str; 17] = ["x", "y", "z", "x0", "a0", "n", "l", "xs", "k", "share_f_0", "a", "b", "x1", "acc", "a1", "a2", "x2"];
 
 struct Namer {
     names: BTreeMap<usize, String>,
@@ -1404,6 +1404,9 @@ pub fn generate(rng: &mut Rng, cfg: &FunCfg) -> FunProg {
                 1 => format!("lift_{earlier}__{}", g.rng.below(40)),
                 _ => format!("share_main_{}", g.rng.below(2)),
             }
+        } else if g.rng.pct(6) {
+            // a helper whose name merely starts like the entry point's
+            format!("{}{}", ["main_helper", "mainLoop", "main2"][g.rng.below(3)], i)
         } else {
             format!("{}{}", def_names[i % def_names.len()], i)
         };
@@ -1557,6 +1560,12 @@ pub fn generate_for_k(rng: &mut Rng) -> String {
     let mut cfg = FunCfg::swarm(rng, 40);
     cfg.type_instances = 3 + rng.below(3);
     cfg.codata_pct = 40;
+    // half of the programs use the names a person would write (x, a0, a1, share_f_0 ...), the
+    // others globally unique ones
+    if rng.pct(50) {
+        cfg.shadow_pct = 40;
+        return generate(rng, &cfg).shadowed;
+    }
     cfg.shadow_pct = 0;
     generate(rng, &cfg).unique
 }
